@@ -302,14 +302,14 @@ func genCase(ruleType string) func(t *rapid.T) c08Case {
 			default:
 				c.Seed = strconv.Itoa(int(rapid.Int32().Draw(t, "seed")))
 			}
-			switch rapid.IntRange(0, 9).Draw(t, "vbk") {
+			switch rapid.IntRange(0, 19).Draw(t, "vbk") {
 			case 0:
 				c.VirtualBucketTimes = "" // default 160
 			case 1:
 				c.VirtualBucketTimes = "160"
-			case 2:
+			case 2, 3:
 				c.VirtualBucketTimes = strconv.Itoa(rapid.IntRange(61, 200).Draw(t, "vb"))
-			case 3, 4, 5:
+			case 4, 5, 6, 7, 8, 9:
 				c.VirtualBucketTimes = strconv.Itoa(rapid.IntRange(11, 60).Draw(t, "vb"))
 			default:
 				c.VirtualBucketTimes = strconv.Itoa(rapid.IntRange(1, 10).Draw(t, "vb"))
